@@ -62,12 +62,17 @@ func (p *players) Len() int {
 
 // Range loops through the player list.
 func (p *players) Range(fn func(p Player) bool) {
+	// Snapshot under the lock and call fn without it: the map must not be
+	// iterated after unlocking, and fn may add or remove players itself.
 	p.mu.RLock()
-	list := p.list
-	p.mu.RUnlock()
 	verifhook.Point("list.range.iter")
-	for _, player := range list {
+	list := make([]*connectedPlayer, 0, len(p.list))
+	for _, player := range p.list {
 		verifhook.Point("list.range.step")
+		list = append(list, player)
+	}
+	p.mu.RUnlock()
+	for _, player := range list {
 		if !fn(player) {
 			return
 		}
